@@ -1,7 +1,7 @@
 (* C12 runner: decodes a case, runs the model and the brute-force spec, encodes both. Executable only.
    case  (0 ndim calc flag_sample (hasSel hasW hasDate nvar) samples dirs dates prime)
          sample = ((x..) sel w date (z..))        dir = (npas dpas toldis tolang psmin (codir..) bench cylrad idate)
-   result ( (tie model_blocks spec_blocks nobreak_blocks) per direction )
+   result ( (tie model_blocks spec_blocks) per direction )
          blocks = one list of cells per variable pair (0,0),(1,0),(1,1),(2,0).. ; cell = (sw hh gg), hh/gg = () | (lo hi) *)
 From Coq Require Import List ZArith QArith Qabs Qround Qminmax Bool.
 From Gst Require Import lib.Sx lib.QAux C12.Model C12.Spec.
@@ -75,14 +75,6 @@ Definition spec_dir_fast (cf : cfg) (flag_sample : bool) (d : dirp) (l : list sa
   if flag_sample || (match c_calc cf with Covg => true | _ => false end)
   then spec_solution2 cf d l else spec_solution1_fast cf d l.
 
-(* diagnostic variant for the date-mode loop: the same algorithm with the 1-D break disabled (used only to tell
-   which of the date-mode defects a witness exhibits) *)
-Definition solution1_nobreak (cf : cfg) (d : dirp) (l : list sample) : list (list ocell) :=
-  let srt := sort_x1 l in
-  let means := stat_means cf l in
-  finish cf d l (apply_upds (zero_arr cf d)
-                   (flat_map (fun p => pair_updates cf d means (fst p) (snd p)) (outer1 cf (inject_Z (10 ^ 40)) srt srt))).
-
 Definition run (c : sx) : sx :=
   match c with
   | L [I 0%Z; _ndim; cal; fs; L [hs; hw; hd; nv]; ss; ds; dts; _prime] =>
@@ -98,8 +90,7 @@ Definition run (c : sx) : sx :=
                            c_dateLoop := nonempty && hd'; c_dateChk := chk; c_nvar := nv' |} in
               ofList (fun d => L [ofB (tie_dir cf d ss');
                                   ofBlocks (compute_dir cf fs' d ss');
-                                  ofBlocks (spec_dir_fast cf fs' d ss');
-                                  if c_dateLoop cf && negb fs' then ofBlocks (solution1_nobreak cf d ss') else L []]) ds'
+                                  ofBlocks (spec_dir_fast cf fs' d ss')]) ds'
           | None => sx_error 2
           end
       | _, _, _, _, _, _, _, _ => sx_error 1
